@@ -11,11 +11,10 @@ THEOREMS = [
     "Mpc.C06_iknp_transpose",
     "Mpc.C06_iknp_label_corr",
     "Mpc.C06_iknp_label_corr_malicious",
-    "Mpc.C06_iknp_bits_exact",
-    "Mpc.C06_iknp_bits_corr_partial",
-    "Mpc.C06_iknp_bits_corr_fails",
-    "Mpc.C06_iknp_bits_corr_witness",
-    "Mpc.C06_iknp_bits_corr_witness_eval",
+    "Mpc.C06_iknp_bits_corr",
+    "Mpc.C06_iknp_bits_corr_eval",
+    "Mpc.C06_iknp_bits_old_fails",
+    "Mpc.C06_iknp_bits_old_witness",
     "Mpc.C06_iknp_session",
     # COT / ROT with MITCCRH (Model/Cot.lean)
     "Mpc.C06_cot_delivers",
@@ -52,8 +51,9 @@ def source_facts(ctx):
              ["128", "8 * 1024", "chunkSize / K", "chunkByteRows * 8"])
     ctx.fact("ot/cot.go otBatchSize", const(cot, "otBatchSize"), "8")
     body = vlib.go_func_body("ot/iknp.go", r"\(r \*IKNPReceiver\) ReceiveBits") or ""
-    ctx.fact("ReceiveBits XORs the choices word-wise with words := byteRows / 8 (the modelled defect)",
-             bool(re.search(r"words\s*:=\s*byteRows\s*/\s*8", body)), True)
+    m = re.search(r"words\s*:=\s*(.+?)\s*$", body, flags=re.M)
+    ctx.fact("ReceiveBits XORs the choices in words := (byteRows + 7) / 8 words per chunk (Iknp.wordsHead; fix 564d319)",
+             re.sub(r"\s+", "", m.group(1)) if m else None, "(byteRows+7)/8")
 
 
 def run(ctx):
@@ -92,13 +92,17 @@ def run(ctx):
         ctx.oblige("generator reached every size class (n mod 8/64/128/512 in {0,+1,-1}, 5 chunks), all three IKNP "
                    "forms, every COT/ROT mode x sharing combination and all five implementations",
                    not missing, "not reached: %s" % missing)
-        # the known ReceiveBits defect is re-derived on the real code on every run
-        rederived = [f for f in ctx.fails if f.get("sig") == "c06-bits-corr"]
-        ctx.coverage["receivebits_defect_rederived_cases_kept"] = len(rederived)
-        ctx.oblige("the ReceiveBits defect (known finding, Lean: C06_iknp_bits_corr_fails) is re-derived by the oracle "
-                   "on the real code", len(rederived) > 0,
-                   "no packed-bit failure seen although the model (byte-exact with the code) predicts failures for "
-                   "every count with 1 <= n % 64 <= 56, Delta.Bit(0) = 1 and a set choice bit in the tail")
+        # the ReceiveBits defect fixed by 564d319 must NOT reproduce: the inputs on which the old code
+        # failed (partial last word, Delta.Bit(0) = 1, a set choice bit in the tail) are exercised and
+        # every one of them must satisfy the correlation now
+        back = c.get("bits_old_defect_reproduced_batches", 0)
+        ctx.coverage["receivebits_old_defect_inputs_exercised"] = c.get("bits_batches_old_defect_inputs", 0)
+        ctx.coverage["receivebits_old_defect_reproduced"] = back
+        ctx.oblige("inputs on which ReceiveBits failed before 564d319 are exercised (1 <= n % 64 <= 56, Delta.Bit(0) = 1, "
+                   "set choice bit in the partial last word)", c.get("bits_batches_old_defect_inputs", 0) > 0,
+                   "none generated")
+        ctx.oblige("the ReceiveBits defect fixed by 564d319 does not reproduce on the real code", back == 0,
+                   "%d packed-bit batches fail exactly as the old code (Lean: C06_iknp_bits_old_fails)" % back)
         if ctx.broken and not [f for f in ctx.fails if not ctx.is_known(f)]:
             # widened search for a concrete failing input (oracle only)
             for s in range(ctx.seed + 7000, ctx.seed + 7004):
@@ -128,9 +132,8 @@ def run(ctx):
     return ctx.finish(
         "Theorems (Props/C06.lean): IKNP label form received_i = sent_i xor choice_i*Delta for every n, every PRG "
         "stream family and every sequence of calls with the per-column stream positions as explicit state; "
-        "createLabels is the bit-matrix transpose; packed-bit form characterised exactly (holds iff every row is in a "
-        "whole 64-bit word of its chunk: proved for n%64=0 or >=57, negation proved for every other n, witnesses n=10, "
-        "n=1); COT/ROT deliver for every batch size and every MITCCRH cipher; CO masks agree in every commutative "
+        "createLabels is the bit-matrix transpose; packed-bit form r_j = s_j xor (Delta.Bit(0) and c_j) for every n "
+        "(the pre-564d319 word count is kept as receiveBitsOld with its negation theorem); COT/ROT deliver for every batch size and every MITCCRH cipher; CO masks agree in every commutative "
         "group; RSA OT recovers the blinding key. Tie: real IKNP sender/receiver, COT, ROT, MITCCRH run with "
         "deterministic tapes, u-matrix bytes / label vectors / packed words / ciphertexts compared byte for byte with "
         "the compiled Lean model (Lean AES-CTR/AES). Oracle: receiver's result = sender's label selected by the choice "
